@@ -53,14 +53,42 @@ theorem render_terminates (reg : Registry) (key : Bytes) (nodes : List Node) (s 
   unfold write writeBody
   rw [tree_terminates reg nodes s.topStart f g hp hf hg]
 
-/-- … and if that result is not `outOfFuel` at ONE sufficient fuel it is not at any (with `Fuel.interp_fuel`: nor at
-    any larger fuel below the bound either — there is no such fuel, the bound is where the run stops looking). -/
+/-- A template body of the fragment never ends with `outOfFuel` once the fuel reaches `treeNeed`, and it does not leave
+    that error in `ctx.Err` either — so the next rendering on the same context starts from a good state again. -/
+theorem tree_never_out_of_fuel (reg : Registry) (nodes : List Node) (s : St) (f : Nat) (hp : plainSeq nodes = true)
+    (hf : treeNeed nodes ≤ f) (hs : s.c.err ≠ some .outOfFuel) :
+    (writeTree reg f nodes s).err ≠ some .outOfFuel ∧ (writeTree reg f nodes s).st.c.err ≠ some .outOfFuel := by
+  unfold treeNeed at hf
+  cases f with
+  | zero => omega
+  | succ f =>
+    rw [writeTree]
+    have h := (interp_clean reg f).1 nodes s hp (by omega) hs
+    simp only
+    split
+    · exact ⟨by simp, by simp⟩
+    · exact h
+
+/-- **`Write(w, key, ctx)` of a registered template without counter loops and includes never runs out of fuel:** for
+    every data, every writer (any fault position), every context that does not already hold the model's own error,
+    every fuel from `treeNeed` on. Nothing in that fragment can keep the interpreter running. -/
 theorem render_never_out_of_fuel (reg : Registry) (key : Bytes) (nodes : List Node) (s : St) (f : Nat)
     (hl : reg.lookup key = some nodes) (hp : plainSeq nodes = true) (hf : treeNeed nodes ≤ f)
-    (h0 : (writeKey reg (treeNeed nodes) key s).err ≠ some .outOfFuel) :
-    (writeKey reg f key s).err ≠ some .outOfFuel := by
-  rw [render_terminates reg key nodes s f (treeNeed nodes) hl hp hf (Nat.le_refl _)]
-  exact h0
+    (hs : s.c.err ≠ some .outOfFuel) :
+    (writeKey reg f key s).err ≠ some .outOfFuel ∧ (writeKey reg f key s).st.c.err ≠ some .outOfFuel := by
+  unfold writeKey
+  simp only [hl]
+  unfold write writeBody
+  have h := tree_never_out_of_fuel reg nodes s.topStart f hp hf hs
+  unfold Res.andThen
+  split
+  · exact h
+  · exact ⟨by simp [ok], by simpa [ok, Ctx.runDeferred] using h.2⟩
+
+/-- An unknown key is an error of its own, not a question of fuel. -/
+theorem render_unknown_key (reg : Registry) (key : Bytes) (s : St) (f : Nat) (hl : reg.lookup key = none) :
+    (writeKey reg f key s).err = some .tplNotFound := by
+  unfold writeKey; simp [hl, fail]
 
 /-- What the driver of the differential run does with this: a rendering in the fragment is run with `fuelFor` = the
     bound of its tree, and that is the result every larger fuel — the session constant included — would give. -/
@@ -90,6 +118,9 @@ example : (writeKey reg1 1200 (lit "t") st1).st.w.out = lit "[xm][xm]" := by
 /-- The bound is exact here: with one unit less the same rendering runs out. -/
 example : (writeKey reg1 10 (lit "t") st1).err = some .outOfFuel := by decide
 example : (writeKey reg1 11 (lit "t") st1).err = none := by decide
+/-- … and the theorem gives the same for the fuel of the differential runs without running the model. -/
+example : (writeKey reg1 1200 (lit "t") st1).err ≠ some .outOfFuel :=
+  (render_never_out_of_fuel reg1 (lit "t") C14.nest3 st1 1200 rfl (by decide) (by decide) (by decide)).1
 
 /-- A counter loop is outside the fragment (its running time is in the data). -/
 example : plainNode (.cloop ⟨lit "i", lit "0", true, .inc, .lt, lit "n", false, []⟩ []) = false := by decide
